@@ -21,8 +21,11 @@ from .common import (P, box, evalf, model_floats, not_close, paths, rng, K, Q, S
 from .resv import FluidStub, load_reservoir, rows_of, MemoSolve
 from .c17 import _differs
 
-OPS = ("simA", "simB", "simC", "rf", "rfd", "interp")
+OPS = ("simA", "simB", "simC", "simAs", "rf", "rfd", "interp")
 GRID_LEN = {"simA": 3, "simB": 3, "simC": 2}
+# simAs: simulate(A, schedule) - single phase only; it rebinds the object's frac-face setting (anchor: state
+# `pressure_fracface`), which a later simulate without a schedule must not inherit
+SIMS = ("simA", "simB", "simC", "simAs")
 
 
 def _grids():
@@ -32,12 +35,16 @@ def _grids():
         for k in range(1, n):
             ts.append(ts[-1] + fresh(f"{name}_d{k}", pos=True))
         g[name] = SymArray(ts, "f8")
+    g["sched"] = SymArray([fresh(f"sch{k}", pos=True) for k in range(GRID_LEN["simA"])], "f8")
     return g
 
 
 def _apply(obj, op, grids, q):
     """Execute one operation; returns ('value', observable list) or ('exc', type name)."""
     try:
+        if op == "simAs":
+            obj.simulate(grids["simA"], grids["sched"])
+            return "value", []
         if op in GRID_LEN:
             obj.simulate(grids[op])
             return "value", []
@@ -62,7 +69,7 @@ def _state(obj):
 
 def _fresh_history(hist):
     """Latest simulate and the recovery calls after it (whole history if no simulate yet)."""
-    last = max((i for i, op in enumerate(hist) if op in GRID_LEN), default=None)
+    last = max((i for i, op in enumerate(hist) if op in SIMS), default=None)
     return list(hist) if last is None else list(hist[last:])
 
 
@@ -79,6 +86,9 @@ def replay_history(model, cls="SinglePhaseReservoir", hist=()):
             t.append(t[-1] + float(model.get(f"{name}_d{k}") or (0.01 * k if name != "simB" else 0.05 * k)))
         grids[name] = np.array(t)
     fluid = None if cls == "IdealReservoir" else _real_fluid()
+    sched = np.array([min(max(float(model.get(f"sch{k}") or (6000.0 - 1500.0 * k)), 200.0), 7900.0) for k in range(GRID_LEN["simA"])])
+    if len(set(sched.tolist())) == 1:
+        sched = sched + np.array([0.0, -500.0, -900.0])[:len(sched)]
 
     def mk():
         return rr.IdealReservoir(5, 1000.0, 8000.0, None) if fluid is None else rr.SinglePhaseReservoir(5, 1000.0, 8000.0, fluid)
@@ -88,7 +98,10 @@ def replay_history(model, cls="SinglePhaseReservoir", hist=()):
         last = None
         for op in ops:
             try:
-                if op in GRID_LEN:
+                if op == "simAs":
+                    o.simulate(grids["simA"], sched)
+                    last = ("value", [])
+                elif op in GRID_LEN:
                     o.simulate(grids[op])
                     last = ("value", [])
                 elif op == "rf":
@@ -112,7 +125,7 @@ def replay_history(model, cls="SinglePhaseReservoir", hist=()):
         (ka == "value" and (len(va) != len(vb) or any(abs(x - y) > 1e-9 * (1 + abs(y)) for x, y in zip(va, vb)))) or \
         any(abs(x - y) > 1e-9 * (1 + abs(y)) for x, y in zip(sa, sb))
     return bad, {"what": f"{cls}: history {list(hist)} ends with {ka} {va} but a fresh object running {_fresh_history(hist)} gives {kb} {vb}",
-                 "inputs": {k: v.tolist() for k, v in grids.items()}}
+                 "inputs": dict({k: v.tolist() for k, v in grids.items()}, schedule=sched.tolist())}
 
 
 # ------------------------------------------------------------------ job
@@ -122,12 +135,15 @@ def job_histories(job, cls, L, chunk, nchunks):
     job.encoded(mod, f"{cls}.simulate", "IdealReservoir.recovery_factor", "IdealReservoir.recovery_factor_interpolator")
     job.stub("linear solve: ideal, memoised on the syntactic system", "fluid*: contract stub with a 2-row (m-scaled, density) table",
              "scipy interp1d / cumulative_trapezoid: exact models")
-    ops = [o for o in OPS if not (cls == "IdealReservoir" and o == "rfd")]
+    ops = [o for o in OPS if not (cls == "IdealReservoir" and o in ("rfd", "simAs"))]
     hists = [h for n in range(1, L + 1) for h in itertools.product(ops, repeat=n)]
     mine = [h for i, h in enumerate(hists) if i % nchunks == chunk]
     job.bound(history_length=L, operations=list(ops), nx=3, grid_lengths=dict(GRID_LEN), histories_total=len(hists))
     nx = 3
     checked = 0
+    # on a tree without stale state every comparison is syntactic; a query that z3 cannot settle quickly is reported
+    # inconclusive (exit 3) rather than allowed to eat the check's budget
+    job.timeout = 40
     for hist in mine:
         def run():
             SS.LinSolve.reset(MemoSolve())
@@ -167,7 +183,7 @@ def job_histories(job, cls, L, chunk, nchunks):
                 job.prove(f"{name}: outcome kind differs from a fresh object ({ka} {va if ka == 'exc' else len(va)} vs {kb} {vb if kb == 'exc' else len(vb)})",
                           pr.pc, bound=f"history length {len(hist)}", replay=rp, elim=True)
                 continue
-            diff = _differs(list(va) + sa, list(vb) + sb) if ka == "value" else _differs(sa, sb)
+            diff = _differs(list(va) + sa, list(vb) + sb, pr.ctx.normal) if ka == "value" else _differs(sa, sb, pr.ctx.normal)
             if diff.kind == "const" and not diff.args[0]:
                 job.record(name, "unsat", 0.0, note="observables syntactically identical to the fresh object's")
             else:
